@@ -2382,3 +2382,178 @@ func ruleIndexUnits(c *eng.Ctx) {
 		}
 	}
 }
+
+// consumesIntoChunkText: g stores a value that derives from its k-th parameter into the Text of a rag.Chunk, itself or
+// through a module function it hands the value to.
+func consumesIntoChunkText(g *ssa.Function, k int, depth int) bool {
+	if g == nil || g.Blocks == nil || k >= len(g.Params) || depth > 3 {
+		return false
+	}
+	p := ssa.Value(g.Params[k])
+	found := false
+	eng.Instrs(g, false, func(in ssa.Instruction) {
+		if found {
+			return
+		}
+		switch x := in.(type) {
+		case *ssa.Store:
+			if fr, ok := eng.AsField(x.Addr); ok && fr.Field == "Text" && strings.HasSuffix(fr.Struct, "rag.Chunk") {
+				for w := range eng.Slice(x.Val, func(*ssa.Call) bool { return true }) {
+					if w == p {
+						found = true
+					}
+				}
+			}
+		case ssa.CallInstruction:
+			h := eng.StaticCallee(x)
+			if h == nil || !eng.InModule(h) || h == g {
+				return
+			}
+			for j, a := range eng.ArgsWithRecv(x) {
+				for w := range eng.Slice(a, func(*ssa.Call) bool { return true }) {
+					if w == p && consumesIntoChunkText(h, j, depth+1) {
+						found = true
+					}
+				}
+			}
+		}
+	})
+	return found
+}
+
+// R13.9 [C13, C12]
+func ruleFlushConsumesPending(c *eng.Ctx) {
+	const R = "R13.9-FLUSH-CONSUMES-PENDING"
+	c.Rule(R, "in the paragraph chunker's flush, once the pending text has gone into a chunk (stored into a chunk's Text, or handed to a function that does so) every way out of the flush passes a Reset of the pending buffer, directly or through a helper that resets it. A return that leaves the buffer as it was puts the same text into the next chunk again", 1, 0)
+	host := c.P.Func("rag.(*Chunker).splitSectionByParagraphs")
+	if host == nil {
+		c.Undec(R, "rag.(*Chunker).splitSectionByParagraphs", token.NoPos, "anchor not found")
+		return
+	}
+	isBuilderCall := func(ci ssa.CallInstruction, method string) bool {
+		n := eng.CalleeName(ci)
+		return n == "strings.(*Builder)."+method || n == "bytes.(*Buffer)."+method
+	}
+	resets := func(f *ssa.Function) bool {
+		r := false
+		eng.Instrs(f, false, func(in ssa.Instruction) {
+			if ci, ok := in.(ssa.CallInstruction); ok && isBuilderCall(ci, "Reset") {
+				r = true
+			}
+		})
+		return r
+	}
+	n := 0
+	for _, fl := range host.AnonFuncs {
+		// the flush: a closure that takes the content of a builder and resets it
+		var taken []*ssa.Call
+		eng.Instrs(fl, false, func(in ssa.Instruction) {
+			if call, ok := in.(*ssa.Call); ok && isBuilderCall(call, "String") {
+				taken = append(taken, call)
+			}
+		})
+		if len(taken) == 0 || !resets(fl) && func() bool {
+			for _, ci := range eng.Calls(fl, false, func(string, ssa.CallInstruction) bool { return true }) {
+				if gs, _ := eng.DynCallees(ci); len(gs) > 0 {
+					for _, g := range gs {
+						if resets(g) {
+							return false
+						}
+					}
+				}
+			}
+			return true
+		}() {
+			continue
+		}
+		n++
+		fromPending := func(v ssa.Value) bool {
+			for w := range eng.Slice(v, func(*ssa.Call) bool { return true }) {
+				for _, t := range taken {
+					if w == ssa.Value(t) {
+						return true
+					}
+				}
+			}
+			return false
+		}
+		isReset := func(in ssa.Instruction) bool {
+			ci, ok := in.(ssa.CallInstruction)
+			if !ok {
+				return false
+			}
+			if isBuilderCall(ci, "Reset") {
+				return true
+			}
+			if g := eng.StaticCallee(ci); g != nil && eng.InModule(g) && resets(g) {
+				return true
+			}
+			if eng.StaticCallee(ci) == nil {
+				if gs, _ := eng.DynCallees(ci); len(gs) > 0 {
+					for _, g := range gs {
+						if resets(g) {
+							return true
+						}
+					}
+				}
+			}
+			return false
+		}
+		isConsume := func(in ssa.Instruction) bool {
+			switch x := in.(type) {
+			case *ssa.Store:
+				if fr, ok := eng.AsField(x.Addr); ok && fr.Field == "Text" && strings.HasSuffix(fr.Struct, "rag.Chunk") && fromPending(x.Val) {
+					return true
+				}
+			case ssa.CallInstruction:
+				g := eng.StaticCallee(x)
+				if g == nil || !eng.InModule(g) {
+					return false
+				}
+				for j, a := range eng.ArgsWithRecv(x) {
+					if fromPending(a) && consumesIntoChunkText(g, j, 0) {
+						return true
+					}
+				}
+			}
+			return false
+		}
+		// blocks that end with the pending text consumed and not yet reset
+		dirty := map[*ssa.BasicBlock]token.Pos{}
+		hasReset := map[*ssa.BasicBlock]bool{}
+		for _, b := range fl.Blocks {
+			d := token.NoPos
+			isDirty := false
+			for _, in := range b.Instrs {
+				if isConsume(in) {
+					isDirty, d = true, in.Pos()
+				}
+				if isReset(in) {
+					isDirty = false
+					hasReset[b] = true
+				}
+			}
+			if isDirty {
+				dirty[b] = d
+			}
+		}
+		bad := ""
+		for b, pos := range dirty {
+			reach := eng.ReachableBlocks(b.Succs, func(x *ssa.BasicBlock) bool { return hasReset[x] })
+			if len(b.Succs) == 0 {
+				reach[b] = true
+			}
+			for x := range reach {
+				if len(x.Instrs) > 0 {
+					if _, isRet := x.Instrs[len(x.Instrs)-1].(*ssa.Return); isRet {
+						bad = c.P.Pos(pos)
+					}
+				}
+			}
+		}
+		c.Check(bad == "", R, fmt.Sprintf("%s#consume-then-reset", eng.FuncName(fl)), fl.Pos(), "every way out after the text was used resets the buffer", "the pending text goes into a chunk at "+bad+" and the flush can return from there without resetting the buffer: the same text is emitted again with the next chunk (duplicated content)")
+	}
+	if n == 0 {
+		c.Undec(R, "rag.(*Chunker).splitSectionByParagraphs#flush", host.Pos(), "no flush closure found (one that takes the builder's content and resets it)")
+	}
+}
